@@ -60,10 +60,16 @@ static bool span_ok(actx *c, const uint8_t *ptr, size_t size)
 
 static bool lookups_allowed(actx *c)
 {
-    if (c->sp == 0 || c->stack[c->sp - 1] != K_OBJ) return false;
     binson_parser *p = c->p;
+    if (c->sp == 0) return false;
     if (p->depth < 1 || p->depth > p->max_depth) return false;
     binson_state *s = &p->state[p->depth - 1];
+    if (mode16 && c->inited_ok && (s->flags & 0x000CU) != 0 && s->current_name.bptr != NULL) {
+        /* C16 speaks about every call sequence: a lookup issued inside an array that is a field value must return too
+         * (outside C01's assumption; allowed here only where the level has a field name, so no NULL name is compared) */
+        return true;
+    }
+    if (c->stack[c->sp - 1] != K_OBJ) return false;
     return s->array_depth == 0 && (s->flags & 0x0003U) != 0;
 }
 
